@@ -311,4 +311,41 @@ theorem processTx_done (rules : Rules) (h : Handler) (prices : List Nat) (now : 
       refine ⟨hpre, v', ?_, hp.1.symm⟩
       rw [hx, hp.2]
 
+/-! ## block-level layer -/
+
+theorem commit_visible (b : Block) (cur : Store) : (b.commit cur).visible = cur := by
+  funext k
+  by_cases h : cur k = b.visible k
+  · have e : (b.commit cur).diff k = b.diff k := by simp [Block.commit, h]
+    rw [h]; simp only [Block.visible, e]; rfl
+  · have e : (b.commit cur).diff k = some (cur k) := by simp [Block.commit, h]
+    have p : (b.commit cur).parent = b.parent := rfl
+    simp only [Block.visible, e]
+
+theorem commit_parent (b : Block) (cur : Store) : (b.commit cur).parent = b.parent := rfl
+
+theorem processTxB_visible (rules : Rules) (h : Handler) (prices : List Nat) (now : Int)
+    (scope : Key → Nat) (tx : Tx) (b : Block) :
+    (processTxB rules h prices now scope tx b).1.visible = (processTx rules h prices now scope tx b.visible).1 ∧
+    (processTxB rules h prices now scope tx b).2 = (processTx rules h prices now scope tx b.visible).2 ∧
+    (processTxB rules h prices now scope tx b).1.parent = b.parent := by
+  unfold processTxB
+  rcases hp : processTx rules h prices now scope tx b.visible with ⟨cur', o⟩
+  cases o with
+  | done res => simp [commit_visible, commit_parent]
+  | preErr e =>
+    simp only
+    unfold processTx at hp; dsimp only at hp
+    split at hp
+    · simp at hp; simp [hp.1]
+    · split at hp <;> simp at hp
+  | execErr e =>
+    simp only
+    unfold processTx at hp; dsimp only at hp
+    split at hp
+    · simp at hp
+    · split at hp
+      · simp at hp; simp [hp.1]
+      · simp at hp
+
 end HyperModel.Proofs.Tx
